@@ -39,6 +39,12 @@ pub enum Op {
     /// poll a read of n bytes ONCE and abandon it if it is not ready (a handler racing the read
     /// against a timeout); only generated as the last operation before the handler returns
     TryRead(usize),
+    /// copy the rest of the active input stream to the output stream the way `futures::io::copy_buf`
+    /// (and the crate's own `hello-cgi` echo example) does: every poll starts with the reader's
+    /// poll_fill_buf, then the writer's poll_write of what is buffered, consume, ... and a final
+    /// poll_flush at end-of-file — so the reader is polled again while a write or flush of the
+    /// handler's own writer is still pending
+    Echo(u8),
 }
 
 #[derive(Clone, Debug)]
@@ -70,6 +76,8 @@ pub struct Invocation {
     pub started_at: u64,
     pub output_stream_panics: u32,
     pub abandoned_reads: u32,
+    /// successful poll_write calls of Echo operations
+    pub echo_polls: u32,
 }
 
 #[derive(Default)]
@@ -230,6 +238,57 @@ async fn interpret(req: &mut Req<'_>, script: Script, log: SharedLog, idx: usize
                     }
                 }
             }
+            Op::Echo(stream) => {
+                use futures_util::io::{AsyncBufRead, AsyncWrite};
+                use std::pin::Pin;
+                use std::task::Poll;
+                if !req.is_writeable() {
+                    if let Err(e) = req.writeable().await {
+                        fail!("writeable", e);
+                    }
+                }
+                let Ok(rt) = RecordType::try_from(*stream) else { continue };
+                let active = req.active_stream().map_or(0, u8::from);
+                let mut w = req.output_stream(rt);
+                let log2 = log.clone();
+                let r: io::Result<()> = std::future::poll_fn(|cx| loop {
+                    let buf = match Pin::new(&mut *req).poll_fill_buf(cx) {
+                        Poll::Ready(Ok(b)) => b,
+                        Poll::Ready(Err(e)) => return Poll::Ready(Err(e)),
+                        Poll::Pending => return Poll::Pending,
+                    };
+                    if buf.is_empty() {
+                        return match Pin::new(&mut w).poll_flush(cx) {
+                            Poll::Ready(r) => {
+                                log2.lock().unwrap().invocations[idx].eofs.push(active);
+                                Poll::Ready(r)
+                            }
+                            Poll::Pending => Poll::Pending,
+                        };
+                    }
+                    let n = match Pin::new(&mut w).poll_write(cx, buf) {
+                        Poll::Ready(Ok(n)) => n,
+                        Poll::Ready(Err(e)) => return Poll::Ready(Err(e)),
+                        Poll::Pending => return Poll::Pending,
+                    };
+                    if n == 0 {
+                        return Poll::Ready(Err(io::ErrorKind::WriteZero.into()));
+                    }
+                    {
+                        let mut l = log2.lock().unwrap();
+                        let inv = &mut l.invocations[idx];
+                        inv.reads.push((active, buf[..n].to_vec()));
+                        inv.writes.push((*stream, buf[..n].to_vec()));
+                        inv.echo_polls += 1;
+                    }
+                    Pin::new(&mut *req).consume(n);
+                })
+                .await;
+                drop(w);
+                if let Err(e) = r {
+                    fail!("echo", e);
+                }
+            }
             Op::TryRead(n) => {
                 use std::future::Future;
                 let mut buf = vec![0u8; *n];
@@ -329,7 +388,7 @@ pub const STATUSES: [ExitStatus; 7] = [
 pub fn gen_script(rng: &mut Rng, role: u16, big_writes: bool) -> Script {
     let mut ops = Vec::new();
     let streams = wire::role_input_streams(role);
-    let read_style = rng.below(6);
+    let read_style = rng.below(7);
     for (i, &_s) in streams.iter().enumerate() {
         if i > 0 {
             match rng.below(3) {
@@ -353,6 +412,13 @@ pub fn gen_script(rng: &mut Rng, role: u16, big_writes: bool) -> Script {
                 }
             }
             3 => {} // reads nothing
+            6 => {
+                // echo the stream (possibly after reading a little of it first)
+                if rng.chance(1, 3) {
+                    ops.push(Op::Read(rng.range(1, 20)));
+                }
+                ops.push(Op::Echo(if rng.chance(3, 4) { wire::STDOUT } else { wire::STDERR }));
+            }
             4 => {
                 for _ in 0..rng.below(5) {
                     if rng.chance(1, 2) {
@@ -406,6 +472,7 @@ pub fn script_class(s: &Script) -> u64 {
             Op::Flush(_) => 10,
             Op::Yield => 11,
             Op::TryRead(_) => 12,
+            Op::Echo(_) => 13,
         };
         h |= 1 << k;
     }
